@@ -251,4 +251,260 @@ theorem hit_block {W : Nat} {scopes : List Nat} {invalid : BranchId → List Nat
       · exact Or.inl (hm.watched_sup op hop hsp.1)
       · exact Or.inr ((f4 op).mpr hop)
 
+/-! ## PART 10 — `FilterBlocks` over a batch, `recoverScopedAddresses` -/
+
+theorem filterBlocks_spec {W : Nat} {scopes : List Nat} {invalid : BranchId → List Nat} {c : Chain}
+    (hwf : ChainWF scopes invalid c) (hla : LookAhead W scopes c) (st : State) (hx : Exp W scopes invalid st) :
+    ∀ (batch p q : Chain) (i0 : Nat), c = p ++ batch ++ q →
+    PInv scopes c p st → MInv W scopes invalid c p st →
+    (filterBlocks st batch i0 = none →
+      PInv scopes c (p ++ batch) st ∧ MInv W scopes invalid c (p ++ batch) st) ∧
+    (∀ i h f, filterBlocks st batch i0 = some (i, h, f) → ∃ a blk b, batch = a ++ (h, blk) :: b ∧ i = i0 + a.length ∧
+      PInv scopes c (p ++ a) st ∧ MInv W scopes invalid c (p ++ a) st ∧ f = filterBlock st blk ⟨[], [], []⟩) := by
+  intro batch
+  induction batch with
+  | nil =>
+    intro p q i0 _ hp hm
+    simp only [filterBlocks, List.append_nil]
+    exact ⟨fun _ => ⟨hp, hm⟩, fun _ _ _ h => by cases h⟩
+  | cons hb rest ih =>
+    obtain ⟨h, blk⟩ := hb
+    intro p q i0 e hp hm
+    have e1 : c = p ++ (h, blk) :: (rest ++ q) := by rw [e]; simp
+    obtain ⟨b1, b2, b3⟩ := block_ready hwf hla e1 hp hm hx
+    obtain ⟨f1, _, _, _⟩ := filterBlock_spec st scopes (wops scopes (allTxs c)) hm.watched_sub blk ⟨[], [], []⟩
+      b1 (fun _ h => by cases h) b2 b3
+    simp only [List.nil_append] at f1
+    simp only [filterBlocks]
+    by_cases hemp : (filterBlock st blk ⟨[], [], []⟩).txs.isEmpty = true
+    · rw [if_pos hemp]
+      have hu : ∀ tx ∈ blk, touches scopes (wops scopes (allTxs c)) tx = false := by
+        rw [List.isEmpty_iff, f1, List.filter_eq_nil_iff] at hemp
+        intro tx htx
+        exact eq_false_of_ne_true (hemp tx htx)
+      obtain ⟨hp', hm'⟩ := skip_block e1 hp hm hu
+      have e2 : c = (p ++ [(h, blk)]) ++ rest ++ q := by rw [e]; simp
+      obtain ⟨q1, q2⟩ := ih (p ++ [(h, blk)]) q (i0 + 1) e2 hp' hm'
+      have ea : p ++ (h, blk) :: rest = (p ++ [(h, blk)]) ++ rest := by simp
+      constructor
+      · intro hn; rw [ea]; exact q1 hn
+      · intro i h' f hs
+        obtain ⟨a, blk', b, r1, r2, r3, r4, r5⟩ := q2 i h' f hs
+        refine ⟨(h, blk) :: a, blk', b, by rw [r1]; rfl, by rw [r2]; simp; omega, ?_, ?_, r5⟩
+        · have : p ++ (h, blk) :: a = (p ++ [(h, blk)]) ++ a := by simp
+          rw [this]; exact r3
+        · have : p ++ (h, blk) :: a = (p ++ [(h, blk)]) ++ a := by simp
+          rw [this]; exact r4
+    · rw [if_neg hemp]
+      constructor
+      · intro hn; cases hn
+      · intro i h' f hs
+        simp only [Option.some.injEq, Prod.mk.injEq] at hs
+        obtain ⟨rfl, rfl, rfl⟩ := hs
+        exact ⟨[], blk, rest, rfl, by simp, by simpa using hp, by simpa using hm, rfl⟩
+
+/-- The state handed to `FilterBlocks`: horizons expanded (and the ghost request counter bumped). -/
+def expState (invalid : BranchId → List Nat) (st : State) : State :=
+  { expandAll invalid st with calls := st.calls + 1 }
+
+theorem recoverScoped_succ (invalid : BranchId → List Nat) (fuel : Nat) (st : State) (batch : Chain)
+    (hne : ¬ batch.isEmpty = true) :
+    recoverScoped invalid (fuel + 1) st batch =
+      match filterBlocks (expState invalid st) batch 0 with
+      | none => expState invalid st
+      | some (i, h, f) =>
+        if (batch.drop (i + 1)).isEmpty then applyFound (expState invalid st) h f
+        else recoverScoped invalid fuel (applyFound (expState invalid st) h f) (batch.drop (i + 1)) := by
+  rw [recoverScoped, if_neg hne]
+  rfl
+
+theorem expState_inv {W : Nat} {scopes : List Nat} {invalid : BranchId → List Nat} {c p : Chain} {st : State}
+    (hp : PInv scopes c p st) (hm : MInv W scopes invalid c p st) :
+    PInv scopes c p (expState invalid st) ∧ MInv W scopes invalid c p (expState invalid st) ∧
+    Exp W scopes invalid (expState invalid st) := by
+  obtain ⟨⟨brs, e1⟩, e2, e3⟩ := expandAll_spec W scopes invalid st hp.scopes_eq hm.branch
+  unfold expState
+  generalize expandAll invalid st = st1 at e1 e2 e3
+  subst e1
+  exact ⟨⟨hp.scopes_eq, hp.paid, hp.credits, hp.txs_rec, hp.txs_ids⟩,
+    ⟨hm.window_eq, e2, hm.watched_sub, hm.watched_sup⟩, e3⟩
+
+/-- `recoverScopedAddresses` over one batch. -/
+theorem recoverScoped_spec {W : Nat} {scopes : List Nat} {invalid : BranchId → List Nat} {c : Chain}
+    (hwf : ChainWF scopes invalid c) (hla : LookAhead W scopes c) :
+    ∀ (fuel : Nat) (batch p q : Chain) (st : State), c = p ++ batch ++ q → batch.length < fuel →
+    PInv scopes c p st → MInv W scopes invalid c p st →
+    PInv scopes c (p ++ batch) (recoverScoped invalid fuel st batch) ∧
+    MInv W scopes invalid c (p ++ batch) (recoverScoped invalid fuel st batch) := by
+  intro fuel
+  induction fuel with
+  | zero => intro batch p q st _ hl; omega
+  | succ fuel ih =>
+    intro batch p q st e hl hp hm
+    by_cases hbe : batch.isEmpty = true
+    · rw [recoverScoped, if_pos hbe]
+      rw [List.isEmpty_iff] at hbe
+      subst hbe
+      simpa using ⟨hp, hm⟩
+    · rw [recoverScoped_succ invalid fuel st batch hbe]
+      obtain ⟨hp1, hm1, hx1⟩ := expState_inv (invalid := invalid) hp hm
+      obtain ⟨q1, q2⟩ := filterBlocks_spec hwf hla (expState invalid st) hx1 batch p q 0 e hp1 hm1
+      cases hfb : filterBlocks (expState invalid st) batch 0 with
+      | none => exact q1 hfb
+      | some r =>
+        obtain ⟨i, h, f⟩ := r
+        simp only []
+        obtain ⟨a, blk, b, r1, r2, r3, r4, r5⟩ := q2 i h f hfb
+        have e1 : c = (p ++ a) ++ (h, blk) :: (b ++ q) := by rw [e, r1]; simp
+        obtain ⟨hp2, hm2⟩ := hit_block hwf hla e1 r3 r4 hx1
+        rw [← r5] at hp2 hm2
+        have hdrop : batch.drop (i + 1) = b := by
+          rw [r1, r2, Nat.zero_add]
+          have : a ++ (h, blk) :: b = (a ++ [(h, blk)]) ++ b := by simp
+          rw [this]
+          have hl' : (a ++ [(h, blk)]).length = a.length + 1 := by simp
+          rw [← hl', List.drop_left]
+        rw [hdrop]
+        have eb : p ++ batch = (p ++ a ++ [(h, blk)]) ++ b := by rw [r1]; simp
+        by_cases hbe' : b.isEmpty = true
+        · rw [if_pos hbe']
+          rw [List.isEmpty_iff] at hbe'
+          rw [eb, hbe', List.append_nil]
+          exact ⟨hp2, hm2⟩
+        · rw [if_neg hbe', eb]
+          have e2 : c = (p ++ a ++ [(h, blk)]) ++ b ++ q := by rw [e, r1]; simp
+          have hlb : b.length < fuel := by
+            have : batch.length = a.length + 1 + b.length := by rw [r1]; simp; omega
+            omega
+          exact ih b (p ++ a ++ [(h, blk)]) q _ e2 hlb hp2 hm2
+
+/-! ## PART 11 — `Resurrect`, the batch loop -/
+
+theorem lookupD_map_mem {β : Type} (g : BranchId → β) (d : β) : ∀ (ids : List BranchId) (k : BranchId), k ∈ ids →
+    lookupD (ids.map (fun k => (k, g k))) d k = g k := by
+  intro ids
+  induction ids with
+  | nil => intro k h; cases h
+  | cons a ids ih =>
+    intro k hk
+    by_cases hka : k = a
+    · subst hka; simp [lookupD]
+    · have hk' : k ∈ ids := by
+        rcases List.mem_cons.mp hk with h | h
+        · exact absurd h hka
+        · exact h
+      have h1 : (k == a) = false := by simp [hka]
+      have := ih k hk'
+      unfold lookupD at this ⊢
+      simp only [List.map_cons, List.lookup_cons, h1]
+      exact this
+
+/-- `Resurrect` (restart, or re-entry of `recovery`): the in-memory state rebuilt from the database satisfies the
+    in-memory invariant; the database is untouched.  The window may be a new one. -/
+theorem resurrect_inv {W : Nat} {scopes : List Nat} {invalid : BranchId → List Nat} {c p q : Chain} {st : State}
+    (e : c = p ++ q) (hp : PInv scopes c p st) (hw : st.window = W) :
+    PInv scopes c p (resurrect invalid st) ∧ MInv W scopes invalid c p (resurrect invalid st) := by
+  have eT : allTxs c = allTxs p ++ allTxs q := by rw [e, allTxs_append]
+  constructor
+  · exact ⟨hp.scopes_eq, hp.paid, hp.credits, hp.txs_rec, hp.txs_ids⟩
+  · refine ⟨hw, ?_, ?_, ?_⟩
+    · intro br hbr
+      have hmem : br ∈ branchIds st.scopes := by rw [hp.scopes_eq]; exact (mem_branchIds scopes br).mpr hbr
+      have hb : (resurrect invalid st).branch br = resurrectBranch st.window (invalid br) (st.nextOf br) := by
+        unfold State.branch resurrect
+        exact lookupD_map_mem (fun k => resurrectBranch st.window (invalid k) (st.nextOf k)) _ _ br hmem
+      have hn : (resurrect invalid st).nextOf br = st.nextOf br := rfl
+      rw [hb, hn, hw]
+      obtain ⟨h1, _, h3, h4⟩ := resurrect_ok W (invalid br) (st.nextOf br)
+      exact ⟨h1, h4, h3⟩
+    · intro op hop
+      simp only [resurrect, hp.credits, specCredits, List.mem_map, List.mem_filter] at hop
+      obtain ⟨cr, ⟨⟨pr, hpr, rfl⟩, _⟩, rfl⟩ := hop
+      rw [eT, wops_append]
+      exact List.mem_append_left _ (List.mem_map.mpr ⟨pr, hpr, rfl⟩)
+    · intro op hop hsp
+      simp only [wops, List.mem_map] at hop
+      obtain ⟨pr, hpr, rfl⟩ := hop
+      simp only [resurrect, hp.credits, specCredits, List.mem_map, List.mem_filter]
+      exact ⟨⟨pr.1, pr.2, spentIn (allTxs p) pr.1⟩, ⟨⟨pr, hpr, rfl⟩, by simp [hsp]⟩, rfl⟩
+
+/-- `Wallet.recovery`: any batch size, any resume points. -/
+theorem recoverChain_spec {W : Nat} {scopes : List Nat} {invalid : BranchId → List Nat} {c : Chain}
+    (hwf : ChainWF scopes invalid c) (hla : LookAhead W scopes c) (batchSize : Nat) (cuts : Nat → Bool) :
+    ∀ (fuel : Nat) (blocks p : Chain) (st : State) (n : Nat), c = p ++ blocks → blocks.length < fuel →
+    PInv scopes c p st → MInv W scopes invalid c p st →
+    PInv scopes c c (recoverChain invalid batchSize fuel st blocks cuts n) ∧
+    MInv W scopes invalid c c (recoverChain invalid batchSize fuel st blocks cuts n) := by
+  intro fuel
+  induction fuel with
+  | zero => intro blocks p st n _ hl; omega
+  | succ fuel ih =>
+    intro blocks p st n e hl hp hm
+    rw [recoverChain]
+    by_cases hbe : blocks.isEmpty = true
+    · rw [if_pos hbe]
+      rw [List.isEmpty_iff] at hbe
+      subst hbe
+      rw [List.append_nil] at e
+      subst e
+      exact ⟨hp, hm⟩
+    · rw [if_neg hbe]
+      simp only []
+      have hne : blocks ≠ [] := fun h => hbe (by rw [h]; rfl)
+      have hpos : 0 < blocks.length := List.length_pos_iff.mpr hne
+      have e1 : c = p ++ blocks.take (max batchSize 1) ++ blocks.drop (max batchSize 1) := by
+        rw [List.append_assoc, List.take_append_drop]; exact e
+      obtain ⟨hp1, hm1⟩ := recoverScoped_spec hwf hla ((blocks.take (max batchSize 1)).length + 1)
+        (blocks.take (max batchSize 1)) p (blocks.drop (max batchSize 1)) st e1 (Nat.lt_succ_self _) hp hm
+      have e2 : c = (p ++ blocks.take (max batchSize 1)) ++ blocks.drop (max batchSize 1) := e1
+      have hl2 : (blocks.drop (max batchSize 1)).length < fuel := by
+        rw [List.length_drop]; omega
+      have hstep : PInv scopes c (p ++ blocks.take (max batchSize 1))
+            (if cuts n = true then resurrect invalid (recoverBatch invalid st (blocks.take (max batchSize 1)))
+              else recoverBatch invalid st (blocks.take (max batchSize 1))) ∧
+          MInv W scopes invalid c (p ++ blocks.take (max batchSize 1))
+            (if cuts n = true then resurrect invalid (recoverBatch invalid st (blocks.take (max batchSize 1)))
+              else recoverBatch invalid st (blocks.take (max batchSize 1))) := by
+        cases cuts n
+        · exact ⟨hp1, hm1⟩
+        · exact resurrect_inv e2 hp1 hm1.window_eq
+      exact ih _ _ _ (n + 1) e2 hl2 hstep.1 hstep.2
+
+theorem init_inv (W : Nat) (scopes : List Nat) (c : Chain) : PInv scopes c [] (State.init W scopes) := by
+  refine ⟨rfl, ?_, rfl, ?_, ?_⟩
+  · intro k h; simp [allTxs, paidKeys] at h
+  · intro h blk hm; cases hm
+  · intro x hx; cases hx
+
+/-- The invariant holds for the whole chain when `recover` returns. -/
+theorem recover_inv {W : Nat} {scopes : List Nat} {invalid : BranchId → List Nat} {c : Chain}
+    (hwf : ChainWF scopes invalid c) (hla : LookAhead W scopes c) (batchSize : Nat) (cuts : Nat → Bool) :
+    PInv scopes c c (recover invalid W batchSize scopes c cuts) ∧
+    MInv W scopes invalid c c (recover invalid W batchSize scopes c cuts) := by
+  obtain ⟨hp, hm⟩ := resurrect_inv (invalid := invalid) (c := c) (p := []) (q := c) rfl (init_inv W scopes c) rfl
+  exact recoverChain_spec hwf hla batchSize cuts (c.length + 1) c [] _ 0 rfl (Nat.lt_succ_self _) hp hm
+
+/-! ## PART 12 — balance -/
+
+theorem balance_fold (txs : List Tx) : ∀ (l : List (OutPoint × Nat)) (acc : Nat),
+    ((l.map (fun p => (⟨p.1, p.2, spentIn txs p.1⟩ : Credit))).filter (fun c => !c.spent)).foldl
+        (fun s c => s + c.amount) acc
+      = acc + ((l.filter (fun p => !spentIn txs p.1)).map (·.2)).sum := by
+  intro l
+  induction l with
+  | nil => intro acc; simp
+  | cons a l ih =>
+    intro acc
+    cases hs : spentIn txs a.1
+    · simp only [List.map_cons, List.filter_cons, hs, Bool.not_false, if_true, List.foldl_cons, List.sum_cons]
+      rw [ih]; omega
+    · simp only [List.map_cons, List.filter_cons, hs, Bool.not_true, Bool.false_eq_true, if_false]
+      exact ih acc
+
+theorem balance_spec (scopes : List Nat) (txs : List Tx) (st : State) (h : st.credits = specCredits scopes txs) :
+    balance st = ledgerBalance scopes txs := by
+  unfold balance ledgerBalance
+  rw [h, specCredits, balance_fold]
+  simp
+
 end Recovery
